@@ -19,6 +19,7 @@ Section KS.
                                                 (None: unhashable -> TypeError swallowed, or equal to no key) *)
   Variable as_item : K -> option item.       (* a bare key compared with items by ==: which item it is, if any *)
   Variable key_of_key : K -> option K.       (* KeyedBase.key applied to a bare key; None = TypeError *)
+  Variable hashable : item -> bool.          (* hash(item) does not raise *)
 
   Definition dict := list (K * item).
 
@@ -221,7 +222,7 @@ Section KS.
     match p with
     | PKS _ xs => dict_eq d (build xs)
     | PSelf => dict_eq d d
-    | PSet xs => set_eq (vals d) xs
+    | PSet xs => forallb hashable (vals d) && set_eq (vals d) xs   (* TypeError -> False *)
     | PList _ => false
     end.
 
